@@ -18,7 +18,9 @@ RULE = ("one run = a tape-generated terminal set (1-4 terminals, FMMU/direct) wi
         "interpreter, entered as the dispatcher's tail call would); 2-5 frames with drawn "
         "contents and drawn DeviceVar values are put through both paths (the slow group's "
         "frame buffer is updated in place or replaced by a fresh one, as a restart of the "
-        "group does); a comparison of "
+        "group does); outputs may be written twice and inputs read twice in a program; in half "
+        "of the runs another terminal of the same class with a different PDO map is looked at "
+        "first; a comparison of "
         "two paths on the same data, no schedule matters; distinct = distinct (layout, "
         "links, frame contents) digests; non-trivial = at least two linked variables")
 COMPONENTS = {
